@@ -315,10 +315,15 @@ func (h *hostile) answerFor(inner []byte) (answer []byte, kind string, respond b
 func (h *hostile) wrapAnswer(id [32]byte, ans []byte) ([]byte, string) {
 	r := h.rng
 	switch r.Intn(14) {
-	case 0: // 0xfe with fewer than 4 bytes after it
+	case 0: // 0xfe with fewer than 3 length bytes after it: FE | FE xx | FE xx yy
 		b := binary.LittleEndian.AppendUint32(nil, 0x0fac8416)
 		b = append(b, id[:]...)
-		return append(b, 0xfe, 0x01), "adnl-len-fe-short"
+		b = append(b, 0xfe)
+		n := r.Intn(3)
+		return append(b, r.Bytes(n)...), fmt.Sprintf("adnl-len-fe-plus-%d", n)
+	case 4: // the one-byte prefix itself is missing
+		b := binary.LittleEndian.AppendUint32(nil, 0x0fac8416)
+		return append(b, id[:]...), "adnl-len-missing"
 	case 1: // 0xff prefix
 		b := binary.LittleEndian.AppendUint32(nil, 0x0fac8416)
 		b = append(b, id[:]...)
